@@ -99,6 +99,7 @@ def eas_job(job):
                    np.flatnonzero((alt >= 0) & (alt <= 20))[:1]]
         for sel in batches:
             _eas_batch(eas, ev, beta[sel], alt[sel], E[sel], lat[sel], lon[sel], A, QE, thr, Z, dask)
+        _eas_batch(eas, ev, beta, alt, E, lat, lon, A, QE, thr, Z, dask, plot=True)
         # other spellings of the same quantities: whole-kilometre decay altitudes as an INTEGER array (a scan from np.arange), binary32
         # columns, Python lists.  The numbers are the same events; what the stage returns for them must obey the same rules.
         k = min(n, 12)
@@ -109,7 +110,7 @@ def eas_job(job):
     return ev
 
 
-def _eas_batch(eas, ev, beta, alt, E, lat, lon, A, QE, thr, Z, dask, raw=False):
+def _eas_batch(eas, ev, beta, alt, E, lat, lon, A, QE, thr, Z, dask, raw=False, plot=False):
     """raw: hand the arrays to the stage as they are (their dtype is the point) instead of through the float64 argument buffers"""
     n = len(beta)
     if n == 0:
@@ -125,7 +126,11 @@ def _eas_batch(eas, ev, beta, alt, E, lat, lon, A, QE, thr, Z, dask, raw=False):
         eas.CphotAng.run = logged
         try:
             with dask.config.set(scheduler="synchronous"):
-                if raw:
+                if plot:
+                    # every registered plot requested (non-interactive backend): the plot functions get the arrays the caller receives
+                    from nssverif import plots as _plots
+                    pe, ce = _plots.call(eas, beta.copy(), alt.copy(), E.copy(), lat.copy(), lon.copy(), plot=True)
+                elif raw:
                     pe, ce = eas(beta.copy(), alt.copy(), E.copy(), lat.copy(), lon.copy())
                 else:
                     pe, ce = eas(BUF("b", beta), BUF("a", alt), BUF("E", E), BUF("la", lat), BUF("lo", lon))
